@@ -128,9 +128,8 @@ func CSVConsumer(opts ...CSVOpt) Consumer {
 					return err
 				}
 
-				v.Grow(len(csvWriter.records))
-				v.SetCap(len(csvWriter.records)) // in case Grow was unnessary, trim down the capacity
-				v.SetLen(len(csvWriter.records))
+				// replace whatever the destination held, even when it was longer than the input
+				v.Set(reflect.MakeSlice(t, len(csvWriter.records), len(csvWriter.records)))
 				reflect.Copy(v, reflect.ValueOf(csvWriter.records))
 
 				return nil
